@@ -90,6 +90,18 @@ def make(kind, kwargs, hidden=None):
         import numpy as np
         v = float(enc(kwargs))
         return [(v, []), (v, np.array([])), (v, {"k": v}), ([], v)][enc(kwargs, "m") % 4]
+    if t == "nptime":     # numpy scalars that are not numbers: a point in time (ns), a duration, a missing time
+        import numpy as np
+        m = enc(kwargs, "m") % 5
+        if m == 0:
+            return np.datetime64(int(enc(kwargs) % 10 ** 18), "ns")
+        if m == 1:
+            return np.timedelta64(int(enc(kwargs) % 10 ** 9), "ms")
+        if m == 2:
+            return np.datetime64(int(enc(kwargs) % 20000), "D")
+        if m == 3:
+            return np.longdouble(enc(kwargs)) / np.longdouble(3)
+        return np.datetime64(int(enc(kwargs) % 10 ** 18), "ns")
     if t == "npbool":     # what a comparison of numpy scalars / ndarray.all() returns
         import numpy as np
         return np.bool_(enc(kwargs) & 1)
@@ -104,6 +116,10 @@ def make(kind, kwargs, hidden=None):
         import numpy as np
         shape = tuple(int(s) for s in k[1].split("x"))
         return np.array(_nest(kwargs, shape, "L"))
+    if t == "carray":     # an array whose dtype depends on the setting: real for some arguments, complex (or float32) for others
+        import numpy as np
+        shape = tuple(int(s) for s in k[1].split("x"))
+        return _vary_dtype(np.array(_nest(kwargs, shape, "L")), enc(kwargs, "dt"))
     if t in ("iarray", "barray"):      # numpy arrays of a dtype that cannot hold NaN
         import numpy as np
         shape = tuple(int(s) for s in k[1].split("x"))
@@ -124,6 +140,9 @@ def make(kind, kwargs, hidden=None):
             elif spec[0] == "a":
                 shape = tuple(int(s) for s in spec[1:].split("x"))
                 out.append(np.array(_nest(kwargs, shape, j)))
+            elif spec[0] == "c":
+                shape = tuple(int(s) for s in spec[1:].split("x"))
+                out.append(_vary_dtype(np.array(_nest(kwargs, shape, j)), enc(kwargs, "dt%d" % j)))
             elif spec[0] == "l":
                 shape = tuple(int(s) for s in spec[1:].split("x"))
                 out.append(_nest(kwargs, shape, j))
@@ -189,6 +208,14 @@ class ProbeFailure(RuntimeError):
 # the exception types a failing user function may raise (some are special to iteration protocols)
 FAIL_EXCS = {"ProbeFailure": ProbeFailure, "StopIteration": StopIteration, "KeyError": KeyError,
              "ZeroDivisionError": ZeroDivisionError, "StopAsyncIteration": StopAsyncIteration}
+
+
+def _vary_dtype(a, sel):
+    """Real float64 / complex128 (the roots of a polynomial: real for some parameters, complex for others)."""
+    import numpy as np
+    if sel % 2:
+        return a.astype(float)
+    return a.astype(float) + 1j * ((a.astype(float) % 997) + 1.0)
 
 
 def probe_call(kwargs, kind, logfile=None, loglist=None, ctl=None, hidden=None):
